@@ -139,9 +139,11 @@ func (fv *familyVersion) GetLiveReferenceFiles(store string) map[FamilyID][]tabl
 
 // removeVersion removes version from active versions,
 // cannot remove current version from active versions.
+// The caller saw the reference count at zero without holding the lock: a reader may have retained
+// the version since (when it was still the current one), so the count is checked again here.
 func (fv *familyVersion) removeVersion(v Version) {
 	fv.mutex.Lock()
-	if v != fv.current {
+	if v != fv.current && v.NumOfRef() == 0 {
 		delete(fv.activeVersions, v.ID())
 	}
 	fv.mutex.Unlock()
